@@ -10,6 +10,15 @@ every population.
   * ZIP loads: the voltage dependent bus load PD*(cp + ci*v + cz*v^2) built for a bus equals the sum of its loads' own ZIP terms for
     every voltage v iff  PD * CID = sum p_l * ci_l  and  PD * CZD = sum p_l * cz_l  (same for q): obligation on the coefficients the
     real code writes. (The pinned code wrote the unweighted mean of the loads' percentages: repaired, see known_findings.json.)
+
+Added later (same module):
+  * _get_numba_functions establishes the precondition of the fast result routine pf_solution_single_slack (one machine, constant-power loads,
+    no distributed slack, GS == BS == 0 at every bus) whenever it selects it (run_pfsoln_choice; also run under C02 and C03);
+  * _update_q / _update_p add the load of the machine's bus *at the solved voltage* (ZIP law) to the network injection (run_local_load);
+  * PD / QD of a node are the sums over the loads, sgens and storages whose bus maps to the node -- node-indexed contract of _sum_by_group
+    (contracts/groupsum.py), fused buses included (h_busload);
+  * known findings: the ZIP coefficients scale everything summed into PD and are kept per pandapower bus (F_ZIP_ALL, F_ZIP_NODE), res_bus omits
+    dcline terminals (F_DCLINE, found by the bounded native stand-in replaylib.nodal.main_elements).
 """
 from __future__ import annotations
 
